@@ -9,6 +9,18 @@ BASELINE = ("cd /repo && env -u PYCRAFT_VERIF /venv/bin/python -m pytest -ra -q 
             "--timeout=900 --continue-on-collection-errors")
 
 CHECKS = {
+    'C02': dict(
+        technique='TLA+ reference encoders (Wire.tla) generate (type, value, bytes) rows via TLC; rows replayed '
+                  'into types/basic.py (S->I); random wide values recomputed by TLC (I->S)',
+        text='TLC enumerates WireCases (a transition system over the Wire.tla reference encoders: two\'s complement '
+             'from sign-magnitude, IEEE-754 from sign/exponent/fraction bits, UTF-8, VarInt prefixes, UUID text, '
+             'angle and fixed-point relations) exhaustively for 8/16-bit types, booleans and angle steps and on '
+             'boundary sets for wide types, strings at the 127/128 and 16383/16384 byte boundaries, arrays nested '
+             'to depth 3; every row is replayed into send/read of the real types (bytes equal, value back, exact '
+             'consumption, every strict prefix raises) and seeded random wide values are validated by TLC.',
+        note='Trusted: TLC, JSON hand-over, ldexp/frexp for carrying floats, zlib/NBT out of scope. Long '
+             'encodings have their strict prefixes sampled.',
+        design='5/C02'),
     'C03': dict(
         technique='TLA+ model of the VarInt reader/writer loops checked by TLC; terminal-state rows '
                   'replayed into the code (S->I); random observations judged by the contract in TLC (I->S)',
